@@ -230,6 +230,18 @@ pub fn apply_effect(
         changes.push(Change { name: o.clone(), st: fs });
     }
     if fail.is_none() {
+        // a generator that keeps a cache file it also reports as a dependency rewrites it on every run
+        // (by convention the file is called gencache.h)
+        if step.effect == Effect::Generator {
+            for f in step.extra_reads.iter().filter(|f| f.as_str() == "gencache.h") {
+                if let Some(old) = st.disk.get(f).copied() {
+                    let t = st.tick();
+                    let fs = FileSt { tick: t, content: old.content };
+                    st.disk.insert(f.clone(), fs);
+                    changes.push(Change { name: f.clone(), st: fs });
+                }
+            }
+        }
         if let Effect::TouchOwnInput(f) = &step.effect {
             if let Some(old) = st.disk.get(f).copied() {
                 let t = st.tick();
